@@ -2,6 +2,7 @@ package poolsim
 
 import (
 	"context"
+	"encoding/json"
 	"fmt"
 	"io"
 	"math/big"
@@ -154,6 +155,7 @@ var (
 )
 
 type world struct {
+	discardedAff bool // a BIND/UNBIND pick was discarded by gRPC earlier in this history
 	latePanic    string
 	rmProbes     []rmProbe
 	rmLate       []chan rmProbe
@@ -195,6 +197,22 @@ type world struct {
 func (w *world) fail(prop, rule, f string, a ...interface{}) {
 	msg := fmt.Sprintf(f, a...)
 	alts := strings.Split(prop, "|")
+	if w.discardedAff && rule != "panic" && rule != "hang" {
+		// the history contains a pick of a BIND/UNBIND call that gRPC discarded: the library treats its Done(DoneInfo{}) as a
+		// successful completion (binds / unbinds, counts a response); what follows from that is the listed known finding
+		for _, p := range alts {
+			if (p == "C01" || p == "C08" || p == "C02" || p == "C07") && w.o.Props[p] || w.o.Props[w.o.Alias[p]] && w.o.Alias[p] != "" {
+				if k := knownFinding("discarded-pick-treated-as-completion"); k != "" {
+					if !knownPrinted[k] {
+						knownPrinted[k] = true
+						fmt.Printf("KNOWN-FINDING: property=%s %s\n", CurProps.Load(), k)
+					}
+					w.labels["case-ends-in-a-known-finding"]++
+					panic(abortOther{"known-finding"})
+				}
+			}
+		}
+	}
 	for _, p := range alts {
 		if w.o.Props[p] {
 			panic(failure{&Fail{Prop: p, Rule: rule, Step: w.step, Msg: msg}})
@@ -1155,7 +1173,12 @@ func (w *world) doDone(ci, outcome, rep int, replyKeys []int) {
 	w.calls = append(w.calls[:ci], w.calls[ci+1:]...)
 	var err error
 	outName := "ok"
-	switch o := ((outcome % 25) + 25) % 25; {
+	discarded := false
+	switch o := ((outcome % 26) + 26) % 26; {
+	case o == 25:
+		// not a completion at all: gRPC found no ready transport on the picked connection, called Done(DoneInfo{})
+		// (nil error, nothing sent or received) and picks again
+		discarded, outName = true, "pick-discarded-by-grpc"
 	case o >= 6 && o <= 22: // every status code, with a non-standard text
 		if c := codes.Code(o - 6); c != codes.OK {
 			err, outName = status.Error(c, "status "+c.String()), "status-"+c.String()
@@ -1168,7 +1191,7 @@ func (w *world) doDone(ci, outcome, rep int, replyKeys []int) {
 	case o == 24:
 		err, outName = io.EOF, "io-EOF"
 	}
-	switch ((outcome % 25) + 25) % 25 {
+	switch ((outcome % 26) + 26) % 26 {
 	case 1:
 		err, outName = status.Error(codes.Unavailable, "unavailable"), "unavailable"
 	case 2:
@@ -1213,7 +1236,8 @@ func (w *world) doDone(ci, outcome, rep int, replyKeys []int) {
 				w.fail("C05", "panic", "%s panicked: %v\n%s", what, r, debug.Stack())
 			}
 		}()
-		c.done(balancer.DoneInfo{Err: err})
+		// a real attempt sent something; a successful one also received (a discarded pick did neither)
+		c.done(balancer.DoneInfo{Err: err, BytesSent: !discarded, BytesReceived: !discarded && err == nil})
 	}()
 	c.cancel()
 	if !c.hasIC && c.m.Cmd != "" {
@@ -1298,7 +1322,12 @@ func (w *world) doDone(ci, outcome, rep int, replyKeys []int) {
 	} else if expect {
 		w.labels["refresh-factory-refused"]++
 	}
-	if err == nil && c.hasIC {
+	if discarded && c.hasIC && (c.m.Cmd == "BIND" || c.m.Cmd == "UNBIND") {
+		// no call completed: nothing is bound or unbound. (The library cannot tell this from a success - open known finding.)
+		w.discardedAff = true
+		w.labels["discarded-pick-of-a-BIND-or-UNBIND-call"]++
+	}
+	if err == nil && c.hasIC && !discarded {
 		switch c.m.Cmd {
 		case "BIND":
 			for _, k := range c.boundKeys() {
@@ -1735,4 +1764,26 @@ func (w *world) noteProbeResponse(sc balancer.SubConn) {
 			w.labels["remove-probe-placed"]++
 		}
 	}
+}
+
+var knownPrinted = map[string]bool{}
+
+// knownFinding returns the text of the open finding id of known_findings.json ("" if it is not listed as open).
+func knownFinding(id string) string {
+	b, err := os.ReadFile(os.Getenv("VERIF_KNOWN"))
+	if err != nil {
+		return ""
+	}
+	var k struct {
+		Findings []struct{ Property, Status, ID, What string }
+	}
+	if json.Unmarshal(b, &k) != nil {
+		return ""
+	}
+	for _, x := range k.Findings {
+		if x.ID == id && x.Status == "open" {
+			return x.What
+		}
+	}
+	return ""
 }
